@@ -109,6 +109,6 @@ def run(ctx):
     run_hist(ctx, PROFILE, oracle, 1500, 30000)
 
 TECHNIQUE = "Lean 4 refinement proof (selection = filter spec) + differential correspondence with DataReaderEntity"
-LEVEL_TEXT = 'Kernel-checked Lean theorems: C20_selection (for every store, masks, instance filter, max_samples and read/take flag the returned data is exactly the specified selection — the first max matching samples in storage order — read marks them READ and keeps them, take removes exactly them) and C20_sample_rank. The grouping-by-instance and absolute_generation_rank clauses fail on the code as it is (recorded findings D26a/D26b, reproduced by the oracle on the real reader). Model tied to DataReaderEntity::read/take by per-op differential comparison of every SampleInfo field.'
+LEVEL_TEXT = 'Kernel-checked Lean theorems: C20_selection (for every store, masks, instance filter, max_samples and read/take flag the returned data is exactly the specified selection — the first max matching samples in storage order — and NoData exactly when nothing matches), C20_sample_rank and C20_generation_ranks (absolute_generation_rank and generation_rank of every returned SampleInfo follow the DDS definitions, computed from the counts stored with the samples; a defect here, D26b, was found by the oracle and repaired). The grouping-by-instance clause fails on the code as it is (recorded finding D26a, reproduced by the oracle on the real reader). Model tied to DataReaderEntity::read/take by per-op differential comparison of every SampleInfo field and of the store before/after.'
 LEVEL_NOTE = 'Trusted: Lean kernel (axioms audited: propext, Classical.choice, Quot.sound at most); the hand-written model Model/ReaderHist.lean of data_reader_entity.rs / user_defined_data_reader.rs (handles as Nat, times as total ns, Vec as List); the hist harness that drives the real DataReaderEntity<()> / UserDefinedDataReader through the cfg(dust_dds_verif) re-export and prints canonical lines; the Python oracle. The differential run validates the model on sampled op sequences only; the theorems are about the model.'
 DESIGN_REF = 'DESIGN.md section 5 C20'
